@@ -92,3 +92,11 @@ Proof.
   match type of H with (if Rlt_bool ?a ?b then _ else _) => destruct (Rlt_bool_spec a b) as [Hlt|Hge] end; [exact Hlt|].
   exfalso. vm_compute in H. discriminate H.
 Qed.
+
+(* float32 operands: generated C++ computes in float, generated Python in double on the widened operands; the two values
+   differ as real numbers already for 0.1f + 0.2f *)
+Theorem float32_languages_differ :
+  let fs := [1036831949; 1045220557]%Z in
+  let e := FBin FAdd (FField 0) (FField 1) in
+  widen (fbits32 (feval32 fs e)) <> fbits (feval (map widen fs) e).
+Proof. vm_compute. discriminate. Qed.
